@@ -5,7 +5,7 @@
   "C03"
  ],
  "level": "U/iter",
- "tier": "wip",
+ "tier": "thorough",
  "harness": "h_one_pass",
  "enforce": [
   "do_one_pass"
@@ -61,7 +61,7 @@
   "C03"
  ],
  "level": "U/iter",
- "tier": "wip",
+ "tier": "quick",
  "harness": "h_one_pass",
  "enforce": [
   "do_one_pass"
@@ -110,7 +110,7 @@
   "C03"
  ],
  "level": "U/iter",
- "tier": "wip",
+ "tier": "quick",
  "harness": "h_one_pass",
  "enforce": [
   "do_one_pass"
@@ -158,7 +158,7 @@
   "C03"
  ],
  "level": "U/iter",
- "tier": "wip",
+ "tier": "thorough",
  "harness": "h_one_pass",
  "enforce": [
   "do_one_pass"
@@ -208,7 +208,7 @@
   "C03"
  ],
  "level": "U/iter",
- "tier": "wip",
+ "tier": "quick",
  "harness": "h_one_pass",
  "enforce": [
   "do_one_pass"
@@ -259,7 +259,7 @@
   "C03"
  ],
  "level": "U/iter",
- "tier": "wip",
+ "tier": "quick",
  "harness": "h_one_pass",
  "enforce": [
   "do_one_pass"
@@ -309,7 +309,7 @@
   "C03"
  ],
  "level": "U/iter",
- "tier": "wip",
+ "tier": "obs",
  "harness": "h_one_pass",
  "enforce": [
   "do_one_pass"
@@ -347,6 +347,97 @@
  ],
  "assumes": [
   "same as do_one_pass_scan but WITHOUT the exclusion of transaction id 0 in ASYNC_COMMIT journals: expected failing obligation (FINDING tid0 in this file)"
+ ],
+ "native": false
+}
+*/
+/* VERIF-UNIT
+{
+ "name": "do_one_pass_replay_fc",
+ "props": [
+  "C03"
+ ],
+ "level": "U/iter",
+ "tier": "thorough",
+ "harness": "h_one_pass",
+ "enforce": [
+  "do_one_pass"
+ ],
+ "replace": [
+  "count_tags",
+  "scan_revoke_records",
+  "calc_chksums",
+  "fc_do_one_pass"
+ ],
+ "loop_contracts": true,
+ "includes": [
+  "e2fsck"
+ ],
+ "defines": [
+  "VERIF_PASS_REPLAY",
+  "VERIF_MAX_BS_LOG=6",
+  "VERIF_STRICT_FC"
+ ],
+ "unwindset": {
+  "do_one_pass.0": 2,
+  "do_one_pass.1": 2
+ },
+ "unwind_reason": "do_one_pass.0 / .1 are the two loops AFTER the loop-contract transformation: each is executed exactly twice by construction (base case, then one arbitrary step from the havocked state, which ends in assume(false)); no real loop is unwound",
+ "cbmc_flags": [
+  "--no-signed-overflow-check",
+  "--object-bits",
+  "8"
+ ],
+ "timeout": 900,
+ "functions": [
+  "e2fsck/recovery.c:do_one_pass",
+  "e2fsck/recovery.c:jread",
+  "e2fsck/recovery.c:read_tag_block"
+ ],
+ "assumes": [
+  "same as do_one_pass_replay but the range / wrap statements are NOT restricted to journals without FAST_COMMIT: expected failing obligations (FINDING wrap/fast_commit in this file)"
+ ],
+ "native": false
+}
+*/
+/* VERIF-UNIT
+{
+ "name": "calc_chksums",
+ "props": [
+  "C03"
+ ],
+ "level": "U",
+ "tier": "quick",
+ "harness": "h_calc_chksums",
+ "enforce": [
+  "calc_chksums"
+ ],
+ "replace": [
+  "count_tags"
+ ],
+ "loop_contracts": true,
+ "includes": [
+  "e2fsck"
+ ],
+ "defines": [
+  "VERIF_PASS_SCAN",
+  "VERIF_MAX_BS_LOG=6"
+ ],
+ "unwindset": {
+  "calc_chksums.0": 2
+ },
+ "unwind_reason": "calc_chksums.0 is the loop after the loop-contract transformation (base case + one arbitrary step)",
+ "cbmc_flags": [
+  "--no-signed-overflow-check",
+  "--object-bits",
+  "8"
+ ],
+ "timeout": 900,
+ "functions": [
+  "e2fsck/recovery.c:calc_chksums"
+ ],
+ "assumes": [
+  "same stubs as do_one_pass_replay; count_tags replaced by its contract (>= 1); the loop over the described blocks is cut by an in-place loop contract (named anchor VERIF_INV_CALC_CHKSUMS): frame, 0 <= i <= num_blks, buffer discipline; level U for the statement made (frame, result range, every buffer released)"
  ],
  "native": false
 }
@@ -489,6 +580,23 @@ struct buffer_head *POOL0, *POOL1, *POOL2;
 #define SPEC_BT_REVOKE 5u
 #define SPEC_FLAG_ESCAPE 1u
 #define SPEC_INCOMPAT_FAST_COMMIT 0x20u
+/*
+ * FINDING wrap/fast_commit (unit do_one_pass_replay_fc, tier wip): the log is the circular area [j_first, j_last) -- that
+ * is where the writers wrap (kernel jbd2_journal_next_log_block: j_head == j_last -> j_first; debugfs journal writer
+ * likewise).  recovery.c's wrap() macro however wraps at j_fc_last when the journal has the FAST_COMMIT feature, so for a
+ * fast-commit journal whose valid log crosses the end of the main area the replay walks on into the fast-commit blocks
+ * [j_last, j_fc_last) instead of continuing at j_first.  (Later kernels changed wrap() to use j_last only.)
+ * The quick units state the range / wrap position only for journals without FAST_COMMIT; the _fc unit states it for all
+ * and fails "T: exactly one log block is consumed per tag, with wrap at j_last", W6 and the range invariants.
+ * Confirmed natively: findings/C03_fast_commit_wrap/demo.sh (a committed transaction crossing j_last is dropped by e2fsck
+ * and debugfs; debugfs, whose load routine never sets j_fc_last, drops every transaction of such a journal);
+ * proposed-fix.patch there restores wrap at j_last and makes both demos' layouts replay.
+ */
+#ifdef VERIF_STRICT_FC
+#define OP_NO_FC(ver, inc) 1
+#else
+#define OP_NO_FC(ver, inc) (!SPEC_HAS(ver, inc, SPEC_INCOMPAT_FAST_COMMIT))
+#endif
 
 /* kernel definition of the transaction-id order (wrap-around): x is at or after y iff the forward distance from y to x,
  * (x - y) mod 2^32, is below 2^31; "x before y" is its negation */
@@ -509,10 +617,20 @@ static int count_tags(journal_t *journal, struct buffer_head *bh)
 	ASSIGNS()
 	ENSURES(RET >= 1);
 
+/* proved by unit calc_chksums (this file): frame, result range, buffer discipline */
 static int calc_chksums(journal_t *journal, struct buffer_head *bh, unsigned long *next_log_block, __u32 *crc32_sum)
 	REQUIRES(g_pass == PASS_SCAN)
-	ASSIGNS(*next_log_block, *crc32_sum)
-	ENSURES(RET == 0 || RET == 1);
+	REQUIRES(g_live == 1 && g_used == 1 && bh == POOL0 && g_armed == 0)
+	ASSIGNS(*next_log_block, *crc32_sum, GHOSTS_INNER)
+	ENSURES(RET == 0 || RET == 1)
+	ENSURES(g_live == 1 && g_used == 1 && g_armed == 0);
+
+/* the block loop of calc_chksums (named anchor VERIF_INV_CALC_CHKSUMS in recovery.c) */
+#define VERIF_INV_CALC_CHKSUMS \
+	__CPROVER_assigns(i, io_block, obh, err, *next_log_block, *crc32_sum, GHOSTS_INNER) \
+	__CPROVER_loop_invariant(0 <= i && i <= num_blks) \
+	__CPROVER_loop_invariant(g_live == 1 && g_used == 1 && g_armed == 0) \
+	__CPROVER_decreases(num_blks - i)
 
 /* ---- loop contracts and monitors, expanded inside do_one_pass (named anchors in recovery.c) ---- */
 #define OP_OFF ((long)(__CPROVER_POINTER_OFFSET(tagp) - __CPROVER_POINTER_OFFSET(bh->b_data)))
@@ -796,7 +914,7 @@ static int do_one_pass(journal_t *journal, struct recovery_info *info, enum pass
 	REQUIRES(pass == PASS_SCAN || pass == PASS_REVOKE || pass == PASS_REPLAY)
 	REQUIRES(g_pass == pass && g_end0 == info->end_transaction && g_live == 0 && g_used == 0 && g_armed == 0 && verif_mc_k < J_BS(journal))
 	REQUIRES(g_start1 == (pass == PASS_SCAN ? SPEC_BE32(&journal->j_superblock->s_sequence) : info->start_transaction))
-	REQUIRES(g_geom_ok == (!SPEC_HAS(journal->j_format_version, J_INC(journal), SPEC_INCOMPAT_FAST_COMMIT) &&
+	REQUIRES(g_geom_ok == (OP_NO_FC(journal->j_format_version, J_INC(journal)) &&
 			       journal->j_first <= SPEC_BE32(&journal->j_superblock->s_start) &&
 			       SPEC_BE32(&journal->j_superblock->s_start) < journal->j_last))
 	ASSIGNS(__CPROVER_object_whole(info), journal->j_failed_commit, GHOSTS)
@@ -852,7 +970,7 @@ void h_one_pass(void)
 	g_live = 0; g_used = 0; g_armed = 0; g_dirtied = 0; g_prev_last = 0;
 	POOL0 = malloc(BH_SIZE(&J)); POOL1 = malloc(BH_SIZE(&J)); POOL2 = malloc(BH_SIZE(&J));
 	ASSUME(POOL0 && POOL1 && POOL2);
-	g_geom_ok = !SPEC_HAS(IN.format_version, IN.incompat, SPEC_INCOMPAT_FAST_COMMIT) && IN.j_first <= IN.s_start && IN.s_start < IN.j_last;
+	g_geom_ok = OP_NO_FC(IN.format_version, IN.incompat) && IN.j_first <= IN.s_start && IN.s_start < IN.j_last;
 
 	int r = do_one_pass(&J, &INFO, IN.pass);
 
@@ -870,5 +988,36 @@ void h_one_pass(void)
 #endif
 #endif
 	if (r) REACH("error return");
+	REACH("end");
+}
+
+/* calc_chksums(): v1 (COMPAT_CHECKSUM) transaction checksum over a descriptor block and the blocks it describes */
+void h_calc_chksums(void)
+{
+	LOAD_IN();
+	ASSUME(IN.bs_log <= VERIF_MAX_BS_LOG);
+	ASSUME(IN.format_version == 1 || IN.format_version == 2);
+	J.j_superblock = &JSB;
+	J.j_blocksize = 1024 << IN.bs_log;
+	J.j_format_version = IN.format_version;
+	JSB.s_feature_incompat = ext2fs_cpu_to_be32(IN.incompat);
+	JSB.s_feature_compat = ext2fs_cpu_to_be32(IN.compat);
+	ASSUME(IN.j_first <= 0xffffffffUL && IN.j_last <= 0xffffffffUL && IN.j_fc_first <= 0x100000000UL && IN.j_fc_last <= 0xffffffffUL);
+	J.j_first = IN.j_first; J.j_last = IN.j_last; J.j_fc_first = IN.j_fc_first; J.j_fc_last = IN.j_fc_last;
+	J.j_total_len = IN.j_total_len;
+	J.j_dev = &DEV_J; J.j_fs_dev = &DEV_FS;
+	DEV_J.k_dev = K_DEV_JOURNAL; DEV_FS.k_dev = K_DEV_FS;
+	verif_mc_k = IN.k;
+	ASSUME(verif_mc_k < (unsigned long long)J.j_blocksize);
+	g_pass = PASS_SCAN;
+	POOL0 = malloc(BH_SIZE(&J)); POOL1 = malloc(BH_SIZE(&J)); POOL2 = malloc(BH_SIZE(&J));
+	ASSUME(POOL0 && POOL1 && POOL2);
+	g_live = 1; g_used = 1; g_armed = 0; g_dirtied = 0;	/* the caller holds the descriptor block */
+	unsigned long nlb = IN.s_start;
+	__u32 crc = IN.csum_seed;
+	int r = calc_chksums(&J, POOL0, &nlb, &crc);
+	CHECK(r == 0 || r == 1, "calc_chksums returns 0 or 1");
+	CHECK(g_live == 1 && g_used == 1, "B: every log block read for the checksum was released, the descriptor is still the caller's");
+	if (r) REACH("read error"); else REACH("summed");
 	REACH("end");
 }
